@@ -26,8 +26,12 @@ BUILTINS = ["setval_c", "setval_x", "x_plus_y", "inc_x_plus_y", "inc_ax_plus_y",
 
 # base names per kind (disjoint, so that every name has one declared type)
 FIELD = ["f1", "f2", "f3", "f4", "m1", "m2", "g1", "g2"]
-FIELD_TRICKY = ["cell", "nlayers", "df", "f1_data", "map_w1", "ndf_w1", "undf_w2", "f2_stencil_map",
+# names that clash with PSy-layer internals which PSyclone creates through the symbol table (handled by renaming).
+# NOT generated: <arg>_proxy, map_<space>, ndf_<space>, undf_<space> — created without consulting the symbol
+# table (known finding C24-psy-internal-name-clash, replayed separately).
+FIELD_TRICKY = ["cell", "nlayers", "df", "f1_data", "f2_stencil_map",
                 "f2_stencil_size", "loop0_start", "f1_1", "fa_1", "obj_f1", "mesh"]
+FIELD_CLASH = ["f1_proxy", "map_w1", "ndf_w1", "undf_w2"]     # declared, never generated (known-finding witness)
 FIELD_ARR = ["fa", "fb"]
 VEC = ["chi", "vec"]
 RSCAL = ["a", "b", "alpha"]
@@ -59,7 +63,7 @@ def noisy(rng, text, literal=False):
     mode = rng.choice(["same", "same", "upper", "mixed"])
     for ch in text:
         c = ch
-        if ch.isalpha() and not (literal and ch in "eEdD"):
+        if ch.isalpha() and not literal:   # kind suffixes keep their case: 'r_deF' crashes LFRic precision lookup
             if mode == "upper":
                 c = ch.upper()
             elif mode == "mixed" and rng.random() < 0.4:
@@ -115,7 +119,8 @@ class Pools:
         if kind == "rscalar" and r.random() < 0.3:
             return lit(r.choice(RLITS))
         if kind in ("iscalar", "extent") and r.random() < 0.25:
-            return lit(r.choice(ILITS))
+            # a stencil extent literal with a kind suffix makes PSyclone abort with ValueError (int('2_i_def'))
+            return lit(r.choice(ILITS if kind == "iscalar" else ILITS[:3]))
         base, is_arr = self._base(kind)
         leaf = base + ("(" + r.choice(INDICES) + ")" if is_arr else "")
         x = r.random()
@@ -133,10 +138,10 @@ class Pools:
     def pick(self, kind, avoid=()):
         """an expression of the kind; repeats an earlier one with probability ~0.55"""
         r = self.rng
-        share = {"extent": ["extent", "iscalar", "direction"], "iscalar": ["iscalar", "extent"],
-                 "direction": ["direction", "direction", "extent"]}.get(kind, [kind])
+        foreign = {"extent": ["iscalar", "direction"], "iscalar": ["extent"], "direction": ["extent", "iscalar"]}
         for _ in range(8):
-            pool = self.used.get(r.choice(share), [])
+            src = r.choice(foreign[kind]) if kind in foreign and r.random() < 0.12 else kind
+            pool = self.used.get(src, [])
             if pool and r.random() < 0.55:
                 e = dict(r.choice(pool))
             else:
@@ -145,7 +150,9 @@ class Pools:
                 continue
             if kind != "direction" and e["dirconst"]:
                 continue
-            if e["canon"] in avoid and r.random() < 0.97:
+            if kind == "extent" and e["lit"] and "_" in e["canon"]:
+                continue
+            if e["canon"] in avoid and r.random() < 0.995:
                 continue
             break
         e = dict(e)
@@ -157,7 +164,7 @@ class Pools:
 
 def declared_names():
     decl = []
-    decl.append("type(field_type) :: " + ", ".join(FIELD + FIELD_TRICKY + [n + "(4)" for n in FIELD_ARR]
+    decl.append("type(field_type) :: " + ", ".join(FIELD + FIELD_TRICKY + FIELD_CLASH + [n + "(4)" for n in FIELD_ARR]
                                                     + [n + "(3)" for n in VEC]))
     decl.append("real(r_def) :: " + ", ".join(RSCAL + [n + "(4)" for n in RSCAL_ARR]))
     decl.append("integer(i_def) :: " + ", ".join(ISCAL + DIRN + [n + "(4)" for n in ISCAL_ARR] + ["i", "n"]))
